@@ -90,6 +90,12 @@ def step (s : St) (line : String) : St × String :=
     let (n', evs) := handleBlobs s.proposer s.n da [(b, oracleOf o)] []
     let ret := if n'.crashed then "panic" else ret
     ({ s with n := { n' with crashed := false } }, s!"blob ret={ret} events={showEvents evs} hm={showMarks n'.hMarks} dm={showMarks n'.dMarks}")
+  | "flood" =>
+    let da := o.nat "da"
+    let entry := (da, o.bytes "blob", oracleOf o)
+    let v1 := { s.v with placed := s.v.placed ++ List.replicate (o.nat "n") entry, top := max s.v.top (da + 1) }
+    let (n', v', evs, _) := scan s.proposer (v1.top + 4 - s.n.daHeight) s.n v1 [] []
+    ({ s with n := n', v := v' }, s!"flood cursor={n'.daHeight} nev={evs.length}")
   | "tick" =>
     let (n', v', evs, tr) := scan s.proposer (s.v.top + 4 - s.n.daHeight) s.n s.v [] []
     let log := scanLog s.v tr
